@@ -205,6 +205,10 @@ K void k_store_arr_int3(uint64_t base, uint64_t p, int a, int b, int c) { S::g_b
 K void k_store_arr_long3(uint64_t base, uint64_t p, long a, long b, long c) { S::g_base = base; auto t = mk_tainted<long(*)[3], S>(p); tainted<long[3], S> v; v[0] = a; v[1] = b; v[2] = c; *t = v; }
 K void k_load_arr_long3(uint64_t base, uint64_t p) { S::g_base = base; auto t = mk_tainted<long(*)[3], S>(p); tainted<long[3], S> v = *t;
   env_log(1, (uint64_t)v[0].UNSAFE_unverified(), (uint64_t)v[1].UNSAFE_unverified(), (uint64_t)v[2].UNSAFE_unverified()); }
+K void k_store_arr_llong3(uint64_t base, uint64_t p, long long a, long long b, long long c) { S::g_base = base; auto t = mk_tainted<long long(*)[3], S>(p); tainted<long long[3], S> v; v[0] = a; v[1] = b; v[2] = c; *t = v; }
+K void k_load_arr_llong3(uint64_t base, uint64_t p) { S::g_base = base; auto t = mk_tainted<long long(*)[3], S>(p); tainted<long long[3], S> v = *t;
+  env_log(1, (uint64_t)v[0].UNSAFE_unverified(), (uint64_t)v[1].UNSAFE_unverified(), (uint64_t)v[2].UNSAFE_unverified()); }
+K void k_store_elem_llong(uint64_t base, uint64_t p, uint32_t i, long long v) { S::g_base = base; auto t = mk_tainted<long long(*)[3], S>(p); (*t)[i] = v; }
 K void k_store_elem_long(uint64_t base, uint64_t p, uint32_t i, long v) { S::g_base = base; auto t = mk_tainted<long(*)[3], S>(p); (*t)[i] = v; }
 K void k_store_field_a(uint64_t base, uint64_t p, long v) { S::g_base = base; auto t = mk_tainted<VS24*, S>(p); t->a = v; }
 K void k_store_field_c(uint64_t base, uint64_t p, int v) { S::g_base = base; auto t = mk_tainted<VS24*, S>(p); t->c = v; }
@@ -255,6 +259,41 @@ def check_agg(ctx, k, log=32):
         ctx.only(paths, "ret", "abort")
         ctx.expect(paths, ret=1)
         ctx.validate(k, [[b0, b0 + size - 12, 1, 0xFFFFFFFF if w == 32 else (1 << 64) - 1, 3], [b0, b0 + 0x40, 7, 8, 9]], base=b0)
+    elif k == "k_store_arr_llong3":
+        fit(24)
+        vs = [ctx.sym("v%d" % i, 64) for i in range(3)]
+        paths = ctx.run(k, [base, p] + vs)
+        for q in paths:
+            if q.status == "ret":
+                ctx.require(q, z3.And(*[decode(q.mem, p + BV(8 * i, 64), 8) == vs[i] for i in range(3)]), "long long elements are stored at the guest stride 8 with all 64 bits")
+                ctx.require(q, unchanged(q, p, 24), "nothing outside the 24 guest bytes of the array changes")
+        ctx.only(paths, "ret")
+        ctx.expect(paths, ret=1)
+        ctx.validate(k, [[b0, b0 + size - 24, 1, (1 << 40) + 7, (1 << 64) - 5]], base=b0)
+    elif k == "k_load_arr_llong3":
+        fit(24)
+        paths = ctx.run(k, [base, p])
+        for q in paths:
+            if q.status == "ret":
+                lg = q.user["log"][0]
+                ctx.require(q, z3.And(*[lg[1 + i] == decode(mem0, p + BV(8 * i, 64), 8) for i in range(3)]), "long long elements are loaded at the guest stride 8 with all 64 bits")
+                ctx.require(q, footprint_ok(ctx, q, p, 24, LD), "reads stay inside the 24 guest bytes")
+        ctx.only(paths, "ret")
+        ctx.expect(paths, ret=1)
+        ctx.validate(k, [[b0, b0 + size - 24]], mem={b0 + size - 24 + i: (0x91 + 7 * i) & 0xFF for i in range(24)}, base=b0)
+    elif k == "k_store_elem_llong":
+        fit(24)
+        i = ctx.sym("i", 32)
+        v = ctx.sym("v", 64)
+        ctx.assume(z3.ULT(i, 3))
+        paths = ctx.run(k, [base, p, i, v])
+        for q in paths:
+            if q.status == "ret":
+                lo = p + zext(i, 64) * 8
+                ctx.require(q, z3.And(decode(q.mem, lo, 8) == v, unchanged(q, lo, 8)), "writing one long long element changes exactly its 8 guest bytes")
+        ctx.only(paths, "ret")
+        ctx.expect(paths, ret=1)
+        ctx.validate(k, [[b0, b0 + 0x40, j, 0x123456789ABCDEF0] for j in range(3)], base=b0)
     elif k == "k_store_arr_long22":
         fit(16)
         vs = [ctx.sym("v%d" % i, 64) for i in range(4)]
@@ -562,7 +601,7 @@ def check_noop(ctx, k):
     ctx.expect(paths, ret=1)
 
 
-AGG = ["k_store_arr_int3", "k_store_arr_long3", "k_store_arr_long22", "k_load_arr_long22", "k_load_arr_long3", "k_store_elem_long", "k_store_field_a", "k_store_field_c",
+AGG = ["k_store_arr_llong3", "k_load_arr_llong3", "k_store_elem_llong", "k_store_arr_int3", "k_store_arr_long3", "k_store_arr_long22", "k_load_arr_long22", "k_load_arr_long3", "k_store_elem_long", "k_store_field_a", "k_store_field_c",
        "k_load_field_a", "k_load_field_c", "k_store_ptrarr2", "k_store_struct", "k_load_struct", "k_store_field_b", "k_load_field_b"]
 
 
